@@ -30,6 +30,7 @@ FINDING_TRIGGERS = {
     "value_function_with_single_call_site_inside_function",
     "name_bound_to_enum_or_structure_and_rebound",
     "math_function_of_hash",
+    "str_as_operator_operand",
     "local_bound_outside_nested_loops_read_in_inner_loop",
     "stack_object_from_register_ref_id",
 }
